@@ -140,7 +140,24 @@ func TestC17(t *testing.T) {
 	cfg.WReopen = 8
 	c.Check(t, "node-machine-window", hx.N(500, 3500), func(cs *hx.Case) {
 		// a few adversarial peer blocks (state-invalid ones make multi-block walks abort part-way)
-		runMixedCase(cs, fs, cfg, 0, 9, nil, func(nm *hx.NodeMachine) {
+		last := ""
+		cfg2 := cfg
+		cfg2.Mix = func(rt *rapid.T, nm *hx.NodeMachine) hx.NOp {
+			if last == "truncate" && rapid.Bool().Draw(rt, "restartaftertruncate") {
+				return hx.NOp{Op: "reopen", Expect: "restart-right-after-truncation"} // start-up code sees a ledger below the persisted height
+			}
+			return mixedOp(rt, nm, cfg, 0, 9)
+		}
+		runNodeCase(cs, fs, cfg2, func(nm *hx.NodeMachine, op hx.NOp, i int) error {
+			last = op.Op
+			if nm.LastOutcome == "skipped" {
+				last = ""
+			}
+			if op.Expect != "" {
+				cs.Label("candidate:" + op.Expect + ":" + nm.LastOutcome)
+			}
+			return nil
+		}, func(nm *hx.NodeMachine) {
 			if nm.Stat["walk-refused-irreversible"] > 0 {
 				cs.Nontrivial()
 			}
